@@ -51,11 +51,14 @@ def _san_reports(prefix):
             if not m:
                 continue
             kind = m.group(1)
-            frames = re.findall(r"#\d+ (?:0x[0-9a-f]+ )?(?:in )?(\S+) (\S+)", b)
+            # only the access stack(s) decide the key, not the allocation / thread-creation stacks
+            head = re.split(r"(?m)^(?:0x[0-9a-f]+ is located|allocated by thread|freed by thread|previously allocated|"
+                            r"  Location is|  Thread T\d+ .*created by|  Mutex M)", b)[0]
+            frames = re.findall(r"#\d+ (?:0x[0-9a-f]+ )?(?:in )?(\S+) (\S+)", head)
             libframes = []
             for fn, loc in frames:
-                if "/src/" in loc or ".abi3.so" in loc or "/Crypto/" in loc:
-                    libframes.append((fn, os.path.basename(loc.split(":")[0]) if "/src/" in loc else os.path.basename(loc)))
+                if loc.startswith("src/") or "/src/" in loc or ".abi3.so" in loc or "/Crypto/" in loc:
+                    libframes.append((fn, os.path.basename(loc.split(":")[0]) if "src/" in loc else os.path.basename(loc)))
             reports.append({"kind": kind, "lib_frames": libframes[:8], "text": b[:6000], "file": path})
     return reports
 
@@ -348,8 +351,9 @@ def main(argv):
     ap.add_argument("--only", help="comma separated workload kinds to run (debugging)")
     a = ap.parse_args(argv)
     prop = a.prop.upper()
+    # the monitor of property CNN is exactly monitors/cNN.py (helpers may be called cNN_xxx.py)
     mods = {os.path.basename(p)[:3].upper(): os.path.basename(p)[:-3]
-            for p in glob.glob(os.path.join(VERIF, "monitors", "c[0-9][0-9]*.py"))}
+            for p in glob.glob(os.path.join(VERIF, "monitors", "c[0-9][0-9].py"))}
     if prop not in mods:
         print("INCONCLUSIVE property=%s reason=no-monitor" % prop)
         return 2
